@@ -37,6 +37,8 @@ def run(ctx):
                    "limit < 2 -> TransportParameter")
     ctx.rule("R6", "abandoning a path retires every remote ID its cell still holds: CidCell::retire pops allocated_cids in a loop "
                    "(until None) and sends one RETIRE_CONNECTION_ID per popped sequence number")
+    ctx.rule("R7", "retire_prior_to announces what it skips: in RemoteCids::retire_prior_to the window offset is read for the "
+                   "RETIRE_CONNECTION_ID range before reset_offset moves it (no offset() read feeding send_frame is reachable from reset_offset)")
     ctx.rule("R5", "one ID per path at a time: BorrowedCid::drop renews; renew retires the previous ID")
 
     # ---------------------------------------------------------------- R1 / R3 on recv_retire_cid_frame
@@ -241,3 +243,30 @@ def run(ctx):
                "pop sites %s (inside a loop: %s), drain sites %s, send_frame sites %s; loop continues on Some and leaves on None with one "
                "frame per item: %s — retiring only the newest ID leaves an older one (still borrowed across a retire_prior_to switch) "
                "without its RETIRE_CONNECTION_ID" % (pops, looped, drains, sends, only_none))
+
+    # ---------------------------------------------------------------- R7
+    rp = ctx.anchor("R7", RC + "::retire_prior_to")
+    if rp:
+        resets = call_blocks(rp, r"IndexDeque(<.*>|::<.*>)?::reset_offset$")
+        sends = [(i, t) for i, t in rp.calls() if re.search(r"SendFrame<.*>>::send_frame$|SendFrame::send_frame$", callee(t))]
+        ctx.floor("R7", "reset_offset calls in retire_prior_to", len(resets), 1)
+        ctx.floor("R7", "send_frame calls in retire_prior_to", len(sends), 1)
+        bad = []
+        for (si_, st) in sends:
+            offs = set()
+            for a in st["args"]:
+                for pl in deep_places(rp, a, 8):
+                    for og in rp.trace_local(pl[0]):
+                        if og[0] == "call" and re.search(r"IndexDeque(<.*>|::<.*>)?::offset$", callee(og[2])):
+                            offs.add(og[1])
+            for r_ in resets:
+                nxt = rp.term(r_).get("to")
+                if nxt is None:
+                    continue
+                after = rp.reachable_from(nxt)
+                if any(o in after for o in offs) and si_ in after:
+                    bad.append((r_, si_))
+        ctx.ob("R7", "%s|the retired range is computed before the offset moves" % rp.short, not bad, rp.where(),
+               "(reset_offset block, send_frame block) pairs where the range's lower end is read after the reset: %s — the range "
+               "offset()..tomb_seq is then empty: ids skipped by retire_prior_to are dropped locally without their "
+               "RETIRE_CONNECTION_ID, so the peer can never replace them" % (bad or "none"))
